@@ -898,6 +898,14 @@ func main() {
 	}
 	ctx.RunStream(stParse, pl, pi)
 	ctx.RunStream(stPrint, ql, qi)
+	// the hand-written reference parser of the round-trip theorems (Props/C09/PrintParse.lean) against the real parser:
+	// same lines and same expected answers as stream `parse`
+	stRef := ctx.NewStream("refparse", "Gojq.RefTerm.refParse (Model/RefTermParser.lean): tokenize (lexer model + parenthesis-depth feedback for string interpolation) and the hand-written precedence-climbing reference parser for the full grammar — the hypothesis `RefAgreesWithTables` of the round-trip theorems",
+		"the sources of stream parse (accepted and rejected); answer = canonical dump of the *gojq.Query | err; distinct = distinct implementation answers")
+	for k, v := range stParse.Distribution {
+		stRef.Distribution[k] = v
+	}
+	ctx.RunStream(stRef, pl, pi)
 
 	ctx.Res.Notes = append(ctx.Res.Notes,
 		fmt.Sprintf("corpus: %d strings of cli/test.yaml + %d builtin.jq chunks; %d mutants; %d generated programs; %d accepted distinct sources", len(corpus), len(builtins), nMut, nGen, len(accepted)),
